@@ -13,7 +13,7 @@ import json, os, re, copy, itertools
 from concurrent.futures import ThreadPoolExecutor
 from core import *
 
-NEEDS = ["Guards", "GuardsProofs", "Corr"]
+NEEDS = ["Guards", "GuardsProofs", "Corr", "SolverEquiv", "Gen_validate_solver", "Gen_solve_dispatch"]   # SolverEquiv: E2 tie of _validate_solver/_solve
 BACKENDS = ["default", "torch", "jax", "fortran"]
 SOLVERS = ["euler", "heun", "scipy", "diffrax", "other"]
 DELAYS = ["none", "discrete", "spread", "past"]
